@@ -312,13 +312,26 @@ class Exec:
         """the local `name` models a mutable object updated in place (a helper called with it sees and makes the updates)"""
         p.extra["inplace"] = frozenset(p.extra.get("inplace", frozenset())) | {name}
 
-    def inline_call(self, fi, pos, kw, p, argnodes=()):
+    def s_FunctionDef(self, st, p):
+        # a nested function: bound as a local; a call runs its body in place with the variables of the enclosing activation visible
+        if st.decorator_list:
+            raise Unsupported("decorated nested function %s" % st.name)
+        p.env[st.name] = V("localfn", st)
+        return [p]
+
+    def call_local(self, st, pos, kw, p, argnodes=()):
+        fi = frontend.FuncInfo(self.fi.relpath, self.fi.cls, "%s.<locals>.%s" % (self.fi.name, st.name), "function", st,
+                               frontend.strip_doc(st.body), [])
+        yield from self.inline_call(fi, pos, kw, p, argnodes, closure=True)
+
+    def inline_call(self, fi, pos, kw, p, argnodes=(), closure=False):
         """call of a helper without contract: its body is executed symbolically in place (copy-in of the arguments, copy-out of
         in-place updates of mutable locals passed by name); no recursion, no generators, loops need an invariant and have none"""
         stack = getattr(self, "_inline_stack", [])
         if fi.ident in stack or len(stack) >= 3:
             raise Unsupported("helper %s without a contract is recursive / nested too deeply" % fi.ident)
-        if any(isinstance(n, (ast.Yield, ast.YieldFrom)) for n in ast.walk(fi.node)):
+        is_gen = any(isinstance(n, (ast.Yield, ast.YieldFrom)) for n in ast.walk(fi.node))
+        if is_gen and not (closure and hasattr(self, "local_gen_start")):
             raise Unsupported("generator helper %s has no contract" % fi.ident)
         a = fi.node.args
         if a.vararg or a.kwarg or a.kwonlyargs:
@@ -348,10 +361,17 @@ class Exec:
                 byname[n] = node.id
         saved = (self.fi, self.mcls, self.exits, self.handlers, self.loopstack, self._ord_cache, self.loops)
         q = p.fork(label="inline:%s" % fi.name)
-        caller_env, caller_inplace = dict(q.env), q.extra.get("inplace", frozenset())
-        q.env = dict(bind)
+        caller_env, caller_inplace, caller_out = dict(q.env), q.extra.get("inplace", frozenset()), q.out
+        q.env = dict(caller_env, **bind) if closure else dict(bind)
         q.extra["inplace"] = frozenset()
-        self.fi, self.mcls, self.exits, self.handlers, self.loopstack, self._ord_cache, self.loops = fi, fi.cls, [], [], [], {}, {}
+        if is_gen:
+            # a nested generator function consumed on the spot: executed eagerly, its output is the value of the call
+            q.out = self.local_gen_start(fi)
+        if closure:
+            # same syntactic unit as the enclosing function: loop invariants and ordinals are the enclosing function's
+            self.exits, self.handlers, self.loopstack = [], [], []
+        else:
+            self.fi, self.mcls, self.exits, self.handlers, self.loopstack, self._ord_cache, self.loops = fi, fi.cls, [], [], [], {}, {}
         self._inline_stack = stack + [fi.ident]
         try:
             live = self.block(fi.body, [q])
@@ -374,14 +394,23 @@ class Exec:
             r.env = env
             r.trace.append("return:%s" % fi.name)
             return r
+
+        def result(r, v):
+            if is_gen:
+                v = self.local_gen_value(r)
+                r.out = caller_out
+            return v
         for r in live:
-            yield back(r), VNONE
+            v = result(r, VNONE)
+            yield back(r), v
         for ex in exits:
-            r = back(ex.path)
             if ex.kind == "return":
-                yield r, ex.value
-            else:
-                self.raise_(r, ex.exc)
+                v = result(ex.path, ex.value)
+                yield back(ex.path), v
+                continue
+            if is_gen:
+                ex.path.out = caller_out
+            self.raise_(back(ex.path), ex.exc)
 
     # ------------------------------------------------------------------ statements
     def run(self, p):
@@ -429,6 +458,9 @@ class Exec:
                     t, pos = t.operand, not val
                 if isinstance(t, ast.Name) and t.id in r.env and hasattr(self, "narrow"):
                     r.env[t.id] = self.narrow(r.env[t.id], pos)
+                elif (isinstance(t, ast.Call) and isinstance(t.func, ast.Name) and t.func.id == "isinstance" and len(t.args) == 2
+                      and isinstance(t.args[0], ast.Name) and t.args[0].id in r.env and hasattr(self, "narrow_isinstance")):
+                    r.env[t.args[0].id] = self.narrow_isinstance(r.env[t.args[0].id], t.args[1], pos, r)
                 out += self.block(body, [r])
         return out
 
